@@ -21,6 +21,8 @@ from ..probe import quiet_logging
 from . import c08_world as W
 
 SPEC = tlc.SPECS / "queue"
+# several TLC processes run side by side: keep each JVM's helper threads few
+JVM_ENV = {"JAVA_TOOL_OPTIONS": "-XX:ParallelGCThreads=2 -XX:CICompilerCount=2"}
 INF = W.INF
 PIPE_INVS = ["InvPartition", "InvOnce", "InvLimit", "InvNoIdleWait", "InvNoLoss", "InvServerWithinLimit",
              "InvOrder", "InvCapacity"]
@@ -92,7 +94,7 @@ class Job:
                                 properties=self.props)
             extra = ["-dump", str(wd / "states")] if self.dump else None
             self.res = tlc.run(SPEC / self.module, cfg, label=self.label, workers=self.workers,
-                               timeout=self.timeout, extra=extra)
+                               timeout=self.timeout, extra=extra, env=JVM_ENV)
         except Exception as ex:     # noqa: BLE001 - reported by the caller as a machinery error
             self.err = ex
         return self
@@ -135,7 +137,7 @@ def model_check(chk: Check, tier):
                     PIPE_INVS, workers=mid))
     jobs.append(Job("pipe lifo/prio Dev={} N=3", "QueuePipe.tla",
                     pipe_consts(kinds=("server",) if quick else ("server", "shifted"), pols=("lifo", "prio"),
-                                prios=(0, 1), hops=(0, 1), svcs=(1,), caps=(2, INF), limits=(1, 2)),
+                                prios=(0, 1), hops=(0, 1), svcs=(1,), caps=(2,) if quick else (2, INF), limits=(1, 2)),
                     PIPE_INVS, workers=mid))
     # --- each deviation alone is caught ------------------------------------------------------
     for dev, (invs, kw) in PIPE_DEVS.items():
@@ -200,7 +202,7 @@ def validate(traces, dev, label, parallel=4):
         f = wd / "traces.json"
         slim = [{kk: v for kk, v in t.items() if kk not in ("wk", "meta")} for t in part]
         f.write_text(json.dumps(slim, separators=(",", ":")))
-        res = tlc.run(SPEC / "QueueTrace.tla", cfg, label=lab, workers=1, timeout=7000, env={"TRACE_FILE": str(f)})
+        res = tlc.run(SPEC / "QueueTrace.tla", cfg, label=lab, workers=1, timeout=7000, env=dict(JVM_ENV, TRACE_FILE=str(f)))
         got, parts3 = {}, {"V": {}, "M": {}, "Q": {}}
         for v in res.printed:
             if isinstance(v, tuple) and len(v) == 4 and v[0] in parts3:
@@ -424,7 +426,7 @@ def real_runs(chk, tier, rng, jobs, ascode):
             behaviours.append((sc_from_state(st), [list(r) for r in st["m"]["log"]]))
         j.dump_path.unlink(missing_ok=True)
     chk.extra["model_behaviours_total"] = len(behaviours)
-    cap = 800 if quick else len(behaviours)
+    cap = 500 if quick else len(behaviours)
     chosen = behaviours if len(behaviours) <= cap else rng.sample(behaviours, cap)
     chk.exhaustive = len(chosen) == len(behaviours)
     matched = 0
@@ -462,7 +464,7 @@ def real_runs(chk, tier, rng, jobs, ascode):
         for st in tlc.parse_dump(pj.dump_path, must_contain=f"n = {maxops}"):
             pol_cases.append(st)
         pj.dump_path.unlink(missing_ok=True)
-    capp = 500 if quick else min(5000, len(pol_cases))
+    capp = 300 if quick else min(5000, len(pol_cases))
     chosen_p = pol_cases if len(pol_cases) <= capp else rng.sample(pol_cases, capp)
     for st in chosen_p:
         prm = dict(st["prm"])
